@@ -117,6 +117,18 @@ fn main() {
             };
             std::process::exit(runner::finish(&ctx, out, started));
         }
+        "shard" => {
+            // pfverif shard <prop> <first_protocol> <cases>
+            let ctx = make_ctx(&args[2], "quick");
+            let p: u8 = args.get(3).and_then(|s| s.parse().ok()).unwrap_or(5);
+            let n: u64 = args.get(4).and_then(|s| s.parse().ok()).unwrap_or(1000);
+            std::process::exit(props::outputs::shard_child(&ctx, p, n));
+        }
+        "shard-one" => {
+            let ctx = make_ctx(&args[2], "quick");
+            let p: u8 = args.get(3).and_then(|s| s.parse().ok()).unwrap_or(5);
+            std::process::exit(props::outputs::shard_one(&ctx, p, &args[4]));
+        }
         "c09-child" => {
             let ctx = make_ctx("C09", args.get(2).map(|s| s.as_str()).unwrap_or("quick"));
             std::process::exit(props::procs::c09_child(&ctx));
